@@ -171,6 +171,38 @@ func runC12(c c12Case) (r pbt.Result) {
 		frozen.S2CAcceptOnly = true
 		r.Excluded = "F13"
 	}
+	slowClose := false
+	for _, p := range c.Cfg.Points {
+		slowClose = slowClose || p == "harness.transport.closing"
+	}
+	if slowClose && clientClosed {
+		// first with the transport's own Close still in progress (it has let go of the pending I/O): whoever is told
+		// by a failing call that the connection is closed must find Closed() signalled as well
+		held := frozen
+		held.Hold = func(p string) bool { return p == "harness.transport.closing" }
+		for i := 0; i < 300; i++ {
+			if _, ok := w.Step(take(&choices), held); !ok {
+				break
+			}
+		}
+		w.Quiesce()
+		closing := false
+		for _, a := range w.Points.Parked() {
+			closing = closing || a.Name == "harness.transport.closing"
+		}
+		if closing && !w.Closed() {
+			for _, op := range w.OpsSnapshot() {
+				if strings.HasPrefix(op.Actor, "c") && op.Op != "connclose" && op.End > closeClock && op.Err != nil {
+					fail("a call failed because the connection is closing, but Closed() is not signalled yet")
+					r.Detailf("%s %s: %v", op.Actor, op.Op, op.Err)
+					return
+				}
+			}
+		}
+		if closing {
+			r.Label("transport_close_in_progress")
+		}
+	}
 	for i := 0; i < 2000; i++ {
 		if _, ok := w.Step(take(&choices), frozen); !ok {
 			break
